@@ -9,6 +9,9 @@ fuzz_target!(|data: &[u8]| {
     }
     let role = data[0];
     if let Ok(text) = std::str::from_utf8(&data[1..]) {
+        if !common::nesting_in_scope(text) {
+            return;
+        }
         let _ = text.to_string().into_identifier();
         use serde_yaml::Value as Y;
         let p = Y::String(text.to_string());
